@@ -58,7 +58,7 @@ ALL_TRAITS = list(itertools.product((0, 1), repeat=4))     # (pocca, pocma, pocs
 
 def job(mc, dr, fmode, n=None, tags=(), label=''):
     return dict(mc=mc, drv=dr, fmode=fmode, max_stims=n, tags=set(tags), label=label,
-                l2=(('one' in tags or 'two' in tags) and 'tracked' in tags and 'fault' in tags and 'san' not in tags))
+                l2=(('one' in tags or 'two' in tags or 'order' in tags) and 'tracked' in tags and 'fault' in tags and 'san' not in tags))
 
 
 def regress_jobs():
@@ -129,7 +129,7 @@ def jobs_for(tier, seed):
         # C16: all pairs of sequences over {1,2,3} up to length 3 (1600 pairs), equal and mixed inline capacities
         J.append(job(order(3), drv(1, 3, elem=NT), 0, None, {'order', 'tracked'}, 'order: all pairs len<=3, N=1 vs 3, C++17 six operators'))
         J.append(job(order(3), drv(2, 2, elem=TRIV, SPACESHIP=1, std='c++20'), 0, None, {'order', 'triv'}, 'order: all pairs len<=3, N=2,2, C++20 element with <=>'))
-        J.append(job(order(3), drv(3, 0, elem=NT, std='c++20'), 0, None, {'order', 'tracked'}, 'order: all pairs len<=3, N=3 vs 0, C++20 element without <=>'))
+        J.append(job(order(3), drv(3, 0, elem=TM, std='c++20'), 1, None, {'order', 'tracked', 'fault'}, 'order: all pairs len<=3, N=3 vs 0, C++20 element without <=>, throwing moves, faults in erase / erase_if'))
     else:
         for N, el, cp, nt in ((2, NT, True, True), (0, NT, True, True), (3, TM, True, False), (0, TM, True, False),
                               (2, MO, False, True), (3, MOT, False, False), (1, CO, True, True)):
